@@ -97,7 +97,10 @@ Admit(mt0, attr, isRoot, isDyn) ==
 (***************************************************************************)
 \* npmSet: the npm: specifiers when an NpmResolver is supplied; npmq: PendingNpmResolutionItem list [s, ref, dyn]
 EmptySt == [slots |-> EmptyFn, redirects |-> EmptyFn, pend |-> <<>>, dynq |-> <<>>, inDyn |-> FALSE, roots |-> <<>>,
-            npmSet |-> {}, npmq |-> <<>>]
+            npmSet |-> {}, npmq |-> <<>>, n |-> 0, div |-> FALSE]
+\* Fuel: the model stops a build after this many consumed responses and marks it as diverging (the code has no such
+\* bound: see finding F17). No world of the instances that terminates needs more than a fraction of it.
+Fuel == 120
 HasNpm(w) == "npm" \in DOMAIN w
 NpmOn(w) == IF HasNpm(w) /\ w.npm.on THEN { s \in DOMAIN w.mods : w.mods[s].k = "npm" } ELSE {}
 
@@ -140,19 +143,21 @@ VisitDeps(st, deps, i, o, m, out) ==
           d2 == IF IncludeTypes(o.kind) THEN d1 ELSE [d1 EXCEPT !.type = NONE]
       IN VisitDeps(st2, deps, i + 1, o, m, Append(out, d2))
 
-\* visit_module 6587-6666 for a JS module
-VisitJs(w, st, s, o) ==
-  LET mt0 == w.ext[s]
+\* visit_module 6587-6666 for a JS module whose source is the response of `src` and whose (final) specifier is `at`
+\* (`at` # `src` when the loader answered with another specifier: an implicit redirect)
+VisitJsAs(w, st, src, at, o) ==
+  LET mt0 == w.ext[at]
       mt == IF mt0 = "noext" THEN "js" ELSE mt0      \* only a root can be admitted without extension
-      deps0 == FillDeps(w.mods[s].items, mt, o.kind, AbsFile(w, s))
-      tdep == IF IncludeTypes(o.kind) /\ ~IsTypedMt(mt) /\ w.mods[s].st # "-" THEN Ok(w.mods[s].st) ELSE NONE
+      deps0 == FillDeps(w.mods[src].items, mt, o.kind, AbsFile(w, at))
+      tdep == IF IncludeTypes(o.kind) /\ ~IsTypedMt(mt) /\ w.mods[src].st # "-" THEN Ok(w.mods[src].st) ELSE NONE
       visit == IncludeCode(o.kind) \/ IsNone(tdep)
-      r == IF visit THEN VisitDeps(st, deps0, 1, o, s, <<>>) ELSE <<st, <<>>>>
+      r == IF visit THEN VisitDeps(st, deps0, 1, o, at, <<>>) ELSE <<st, <<>>>>
       st1 == r[1]
-      st2 == IF IsOk(tdep) THEN Load(st1, tdep.ok, FALSE, FALSE, s, "none") ELSE st1
-  IN [st2 EXCEPT !.slots = Put(st2.slots, s,
+      st2 == IF IsOk(tdep) THEN Load(st1, tdep.ok, FALSE, FALSE, at, "none") ELSE st1
+  IN [st2 EXCEPT !.slots = Put(st2.slots, at,
         [k |-> "mod", cls |-> "js", mt |-> mt, chk |-> ChkOf(mt), deps |-> r[2], tdep |-> tdep,
          tdepText |-> IF IsOk(tdep) THEN tdep.ok \o "#0" ELSE ""])]
+VisitJs(w, st, s, o) == VisitJsAs(w, st, s, s, o)
 
 ErrSlot(ek, ref) == [k |-> "err", ek |-> ek, ref |-> ref]
 
@@ -171,14 +176,21 @@ Consume(w, st, o) ==
           ELSE LET \* check_specifier/add_redirect: the pending slot of the requested specifier goes away; a redirect
                    \* to the requested specifier itself is not recorded (after the fix of F14 the slot is removed
                    \* as well, so the re-load counts up to the limit and ends in TooManyRedirects)
-                   st1 == [st0 EXCEPT !.slots = Del(st0.slots, s),
+                   st1 == [st0 EXCEPT !.slots = IF s \in DOMAIN st0.slots /\ st0.slots[s].k = "pending" THEN Del(st0.slots, s) ELSE st0.slots,
                                       !.redirects = IF s \in DOMAIN st0.redirects \/ resp.to = s THEN st0.redirects ELSE Put(st0.redirects, s, resp.to)]
                IN LoadC(st1, resp.to, it.root, it.dyn, it.ref, it.attr, it.count + 1)
-     ELSE LET adm == Admit(w.ext[s], it.attr, it.root, it.dyn) IN
+     ELSE LET \* the loader may answer with another (final) specifier: check_specifier 5487-5516 records requested -> final
+              \* (first one wins), drops the pending slot of the requested specifier, and the entry -- module or
+              \* admission error -- is stored under the final specifier, overwriting what was there
+              fin == IF "fin" \in DOMAIN resp /\ resp.fin # "-" THEN resp.fin ELSE s
+              st1 == IF fin = s THEN st0
+                     ELSE [st0 EXCEPT !.slots = IF s \in DOMAIN st0.slots /\ st0.slots[s].k = "pending" THEN Del(st0.slots, s) ELSE st0.slots,
+                                      !.redirects = IF s \in DOMAIN st0.redirects THEN st0.redirects ELSE Put(st0.redirects, s, fin)]
+              adm == Admit(w.ext[fin], it.attr, it.root, it.dyn) IN
           IF adm = "json" THEN
-             [st0 EXCEPT !.slots = Put(st0.slots, s, [k |-> "mod", cls |-> "json", mt |-> "json", chk |-> "yes", deps |-> <<>>, tdep |-> NONE, tdepText |-> ""])]
-          ELSE IF adm = "js" THEN VisitJs(w, st0, s, o)
-          ELSE [st0 EXCEPT !.slots = Put(st0.slots, s, ErrSlot(adm, it.ref))]
+             [st1 EXCEPT !.slots = Put(st1.slots, fin, [k |-> "mod", cls |-> "json", mt |-> "json", chk |-> "yes", deps |-> <<>>, tdep |-> NONE, tdepText |-> ""])]
+          ELSE IF adm = "js" THEN VisitJsAs(w, st1, s, fin, o)
+          ELSE [st1 EXCEPT !.slots = Put(st1.slots, fin, ErrSlot(adm, it.ref))]
 
 \* resolve_dynamic_branches 5137-5164 (canonical order = insertion order; see Steps.tla for the free order)
 RECURSIVE LoadAllDyn(_, _)
@@ -189,7 +201,8 @@ EnterDyn(st) == LoadAllDyn([st EXCEPT !.inDyn = TRUE], 1)
 
 RECURSIVE Drain(_, _, _)
 Drain(w, st, o) ==
-  IF st.pend # <<>> THEN Drain(w, Consume(w, st, o), o)
+  IF st.n >= Fuel THEN [st EXCEPT !.div = TRUE]
+  ELSE IF st.pend # <<>> THEN Drain(w, [Consume(w, st, o) EXCEPT !.n = st.n + 1], o)
   ELSE IF st.dynq # <<>> /\ ~st.inDyn THEN Drain(w, EnterDyn(st), o)
   ELSE st
 
@@ -241,7 +254,8 @@ BuildOn(w, g, roots, o) ==
   LET nr == NewRoots(SeqToSet(g.roots), roots, 1)
       st0 == [EmptySt EXCEPT !.slots = g.slots, !.redirects = g.redirects, !.inDyn = o.isDynamic, !.npmSet = NpmOn(w)]
       st == NpmFill(w, Drain(w, LoadRoots(st0, nr, 1, o), o))
-  IN [g EXCEPT !.roots = g.roots \o nr, !.slots = st.slots, !.redirects = st.redirects]
+  IN IF st.div THEN [kind |-> g.kind, roots |-> g.roots \o nr, diverged |-> TRUE, sch |-> g.sch]
+     ELSE [g EXCEPT !.roots = g.roots \o nr, !.slots = st.slots, !.redirects = st.redirects]
 Build(w, roots, o) == BuildOn(w, Graph0(o.kind, w.sch), roots, o)
 
 \* Builder::reload 4750-4777
